@@ -1,6 +1,7 @@
 package sim
 
 import (
+	"os"
 	"context"
 	"encoding/json"
 	"errors"
@@ -535,8 +536,11 @@ func runTraversal(t *testing.T, sc *c13Scenario, record bool) *c13Outcome {
 				}
 			}
 			for n, v := range results {
-				if !model.exp[n] && v != "" {
-					model.problem("collector-result-for-unvisited", n)
+				// exactly the per-service results of the supplied function: no entry, not even a zero value, for a
+				// service the function was never called for
+				// (a clause of C19; C13 says nothing about results: there only a non-zero value for an unvisited service counts)
+				if !model.exp[n] && (v != "" || os.Getenv("VERIF_PROP") == "C19") {
+					model.problem("collector-result-for-unvisited", fmt.Sprintf("result[%s]=%q although %s is outside the selection", n, v, n))
 				}
 			}
 		}
